@@ -6,6 +6,14 @@ THEOREMS = [
     "C09.query_sound_counterexample",
     "C09.query_eq_fast",
     "C09.dfs_complete_partial",
+    "C09.dfs_complete",
+    "C09.dfs_facts_grow",
+    "C09.derivableIn_iff_deriv",
+    "C09.dfs_complete_oracle",
+    "C09.dfs_complete_full_holds",
+    "C09.dfs_complete_depth_tight",
+    "C09.dfs_complete_needs_noIntLit",
+    "C09.dfs_complete_needs_consistency",
 ]
 N = {"quick": 1500, "thorough": 20000}
 EXHAUSTIVE = {"quick": False, "thorough": False}
@@ -19,7 +27,9 @@ RULE = ("cases = corpus (defect witnesses) + N generated problems (50% consisten
         "observations, none of them running the search model: (i) provable => goal comparison true in the facts handed back; "
         "(ii) facts handed back are in Reach, computed by explicit forward search; (iii) not provable => facts after == before, "
         "undo depth 0 always; (iv) DFS, consistent-Horn KB: goal derivable with sub-goal nesting <= max_depth (reference level "
-        "computation) => provable. The search model's prediction is compared as well: the driver emits the SET of admissible "
+        "computation) => provable; (iv-b) DFS, all-conjunctive KB with conflicting assignments and no Integer condition literal: "
+        "derivation tree within max_depth AND goal true in a store of the explicit forward search => provable (failures = known "
+        "finding F-C09e). The search model's prediction is compared as well: the driver emits the SET of admissible "
         "observations over all orders of the top-level candidate list (HashSet order) and the check is membership. "
         "Non-trivial = provable with derived facts, or not provable although some rule can fire on the initial facts.")
 TRUSTED = [
@@ -54,14 +64,25 @@ LEVEL_TEXT = ("Lean 4 theorems (kernel-checked, unbounded: every KB, store, goal
               "function) on an executable model of the backward search after fixes F-C09/F-C10a-c: search_facts_reachable (facts "
               "handed back are forward-reachable; DFS, BFS, iterative; every max_solutions), provable_goal_holds / query_sound_partial "
               "(provable => goal comparison true in the facts handed back; BFS, iterative, DFS with max_solutions = 1), "
-              "query_sound_counterexample (max_solutions > 1 violates it: recorded finding), dfs_complete_partial (nesting-0 derivations, "
-              "arbitrary KBs), query_eq_fast (the driver's search equals the model's). Tied to the code by differential testing with "
+              "query_sound_counterexample (max_solutions > 1 violates it: recorded finding), query_eq_fast (the driver's search equals "
+              "the model's). Bounded completeness of DFS: dfs_complete (KB with pairwise consistent actions, compatible initial store, "
+              "every max_depth / max_solutions / covering candidate order: a goal with a derivation tree of height <= max_depth + 1 "
+              "through rules with conjunctive equality conditions without Integer literals is provable; by induction on the derivation "
+              "with the invariant dfs_facts_grow - failed candidates are rolled back exactly (C10 frame theorem), successful sub-proofs "
+              "only extend the store), derivableIn_iff_deriv + dfs_complete_oracle (oracle (iv)'s reference computation decides exactly "
+              "that derivability, so clause (iv) is a theorem of the model), dfs_complete_full_holds (the statement left open before), "
+              "dfs_complete_partial (nesting-0 derivations, arbitrary KBs), and one kernel-evaluated witness per hypothesis: "
+              "dfs_complete_depth_tight (height max_depth + 2 is not found), dfs_complete_needs_noIntLit (F-C09b), "
+              "dfs_complete_needs_consistency (F-C09e). Tied to the code by differential testing with "
               "set-valued predictions, and by four model-free oracles (goal holds, explicit forward-reachability search, facts "
               "restored / no leaked frames, bounded completeness against a reference derivation-level computation) evaluated on "
               "the implementation's observations under every strategy.")
-LEVEL_NOTE = ("Partial: bounded completeness is proved only for derivations of sub-goal nesting 0 (full statement kept as "
-              "C09.dfs_complete_full; deeper derivations are checked by oracle (iv) on the implementation); soundness clause (i) is false "
-              "for max_solutions > 1 (C09.query_sound_counterexample, known finding F-C09c); Integer literals in sub-goal conditions "
-              "break completeness (known finding F-C09b). Trusted: Lean kernel + {propext, Classical.choice, Quot.sound}; hand-written "
-              "model tied by differential testing; candidate computation re-implemented in the driver; harness/driver glue.")
+LEVEL_NOTE = ("Bounded completeness is proved for knowledge bases whose actions give each field one value (consistent with the initial "
+              "facts) and derivations through conjunctive equality rules without Integer literals; outside that fragment it is false of "
+              "model and code (known findings F-C09b: Integer literal in a sub-goal, F-C09e: a later sub-proof overwrites an earlier "
+              "one) and only the runtime oracles (iv)/(iv-b) speak. The theorem assumes candidate lists that offer every rule assigning the "
+              "wanted value; that the code's conclusion index / substring heuristic do so is checked by the correspondence run, not proved. "
+              "Soundness clause (i) is false for max_solutions > 1 (C09.query_sound_counterexample, known finding F-C09c). Trusted: Lean "
+              "kernel + {propext, Classical.choice, Quot.sound}; hand-written model tied by differential testing; candidate computation "
+              "re-implemented in the driver; harness/driver glue.")
 DESIGN_REF = "§6 C09"
